@@ -3,6 +3,7 @@ package dkg
 import (
 	"bytes"
 	"context"
+	"sync"
 	"time"
 
 	"google.golang.org/grpc"
@@ -198,12 +199,27 @@ func init() { zz.Register("ZZ_C06_echoBroadcast", ZZ_C06_echoBroadcast) }
 // zzEchoClient records every protocol bundle this node sends out.
 type zzEchoClient struct {
 	zzClient
+	mu   sync.Mutex
 	sent []zzEchoSend
+	// a slow peer: calls to slowAddr do not return before gate is closed
+	slowAddr string
+	gate     chan struct{}
 }
 
 func (c *zzEchoClient) BroadcastDKG(_ context.Context, p net.Peer, packet *drand.DKGPacket, _ ...grpc.CallOption) (*drand.EmptyDKGResponse, error) {
+	if c.gate != nil && p.Address() == c.slowAddr {
+		<-c.gate
+	}
+	c.mu.Lock()
 	c.sent = append(c.sent, zzEchoSend{p.Address(), packet})
+	c.mu.Unlock()
 	return &drand.EmptyDKGResponse{}, nil
+}
+
+func (c *zzEchoClient) nsent() int {
+	c.mu.Lock()
+	defer c.mu.Unlock()
+	return len(c.sent)
 }
 
 type zzEchoSend struct {
@@ -229,6 +245,11 @@ func ZZ_C06_echoBroadcast() {
 		panic(err)
 	}
 	cl := &zzEchoClient{}
+	// one of the other participants may be slow to take what is sent to it: the echo to it queues up meanwhile
+	slow := zz.Bool("one_peer_is_slow")
+	if slow {
+		cl.slowAddr, cl.gate = w.parts[2].Address, make(chan struct{})
+	}
 	p := NewDKGProcess(bolt, &zzIdent{w.pairs[0]}, util.NewFanOutChan[SharingOutput](), cl, nil,
 		Config{Timeout: time.Hour, TimeBetweenDKGPhases: 0, KickoffGracePeriod: time.Hour}, zzfake.Logger())
 	ctx := context.Background()
@@ -277,15 +298,19 @@ func ZZ_C06_echoBroadcast() {
 		case 5: // an index nobody holds
 			pkt = mkBundle(1, true, 1, 7)
 		}
-		nsent, napp := len(cl.sent), len(board.respCh)
+		nsent, napp := cl.nsent(), len(board.respCh)
 		_, err := p.BroadcastDKG(ctx, pkt)
 		zz.Quiesce()
-		dsent, dapp := len(cl.sent)-nsent, len(board.respCh)-napp
+		dsent, dapp := cl.nsent()-nsent, len(board.respCh)-napp
 		if fresh {
 			zz.Assert("new_genuine_bundle_is_accepted", err == nil)
 			zz.Assert("new_genuine_bundle_reaches_the_protocol_once", dapp == 1)
-			zz.Assert("new_genuine_bundle_is_echoed_once_to_every_other_participant", dsent == 2 && cl.sent[nsent].to != cl.sent[nsent+1].to &&
-				cl.sent[nsent].to != w.parts[0].Address && cl.sent[nsent+1].to != w.parts[0].Address)
+			if slow {
+				zz.Assert("new_genuine_bundle_is_echoed_at_once_to_the_peer_that_is_not_slow", dsent == 1 && cl.sent[nsent].to == w.parts[1].Address)
+			} else {
+				zz.Assert("new_genuine_bundle_is_echoed_once_to_every_other_participant", dsent == 2 && cl.sent[nsent].to != cl.sent[nsent+1].to &&
+					cl.sent[nsent].to != w.parts[0].Address && cl.sent[nsent+1].to != w.parts[0].Address)
+			}
 			handed++
 		} else {
 			zz.Assert("repeat_or_forgery_never_reaches_the_protocol", dapp == 0)
@@ -297,5 +322,22 @@ func ZZ_C06_echoBroadcast() {
 		}
 	}
 	zz.Assert("protocol_received_each_genuine_bundle_once", len(board.respCh) == handed)
+	if slow {
+		// the slow peer catches up: everything echoed to the other peer reaches it too, once, in the same order
+		close(cl.gate)
+		zz.Quiesce()
+		var fast, late []*drand.DKGPacket
+		for _, s := range cl.sent {
+			if s.to == w.parts[1].Address {
+				fast = append(fast, s.packet)
+			} else {
+				late = append(late, s.packet)
+			}
+		}
+		zz.Assert("slow_peer_receives_every_echo", len(fast) == handed && len(late) == handed)
+		for i := range late {
+			zz.Assert("slow_peer_receives_the_echoes_in_order", i < len(fast) && late[i] == fast[i])
+		}
+	}
 	p.Close()
 }
